@@ -182,6 +182,19 @@ Theorem C07_pairs_serializable :
 Proof. vm_compute. reflexivity. Qed.
 
 (* unfolded: every interleaving of every listed pair ends like one of the two serial orders *)
+(* KNOWN FINDING (KNOWN_FINDINGS.txt), reproduced in the model: a listing that runs during the FIRST write into a fresh
+   cache is not serialisable.  Between the creation of index-v5/ and of the first bucket file the listing is empty; run
+   before the write it is one error item (no index directory: the repository's own test pins that), after it the entry. *)
+Definition first_write : prog outcome := wr K DB 2.
+Definition listing : prog outcome := pv (ls toy_hash) VList.
+Theorem C07_list_during_first_write_refuted :
+  all_serial first_write listing [] = false /\
+  (exists L, explore 40 [first_write; listing] [] = Some L /\
+             existsb (fun x => match fst x with [Res (Ok (VSri _)); Res (Ok (VList []))] => true | _ => false end) L = true) /\
+  fst (run listing []) = Res (Ok (VList [LErr EIoErr])) /\
+  match fst (run listing (snd (run first_write []))) with Res (Ok (VList [LMeta _])) => True | _ => False end.
+Proof. vm_compute. split; [reflexivity|]. split; [eexists; split; reflexivity|]. split; [reflexivity|exact I]. Qed.
+
 Theorem C07_pairs_all_interleavings pA pB f0 :
   In (pA, pB, f0) pairs ->
   forall pl' f' rs, preach ([pA; pB], f0) (pl', f') -> results pl' = Some rs -> serial_ok pA pB f0 (rs, f') = true.
@@ -212,3 +225,4 @@ Print Assumptions C07_observations_monotone.
 Print Assumptions C07_hop_prog_is_insert.
 Print Assumptions C07_pairs_serializable.
 Print Assumptions C07_pairs_all_interleavings.
+Print Assumptions C07_list_during_first_write_refuted.
